@@ -30,6 +30,8 @@ for d in sorted(glob.glob(SRC + "/C*/m[0-9]")):
     if not os.path.exists(d + "/patch.diff"):
         continue
     pid, m = d.split("/")[-2:]
+    if os.environ.get("SEED_ONLY") and pid not in os.environ["SEED_ONLY"].split(","):
+        continue
     m = "m%d" % (int(m[1:]) + OFFSET)
     c = conf.get(d)
     if c is None:
